@@ -119,6 +119,16 @@ CLAIMED = {
          "machine; stationarity is checked numerically (fixed point of the covariance recursion, spectral radius < 1)."),
    ref="5 C05",
    note="Finiteness and convergence to the stationary covariance are observed/numerical, not proved; A, B taken from the object."),
+ "C12": dict(
+   technique="Coq proof (integer arithmetic unbounded; exact rational integration and polynomial identities bounded by kernel computation) over a hand model + vm_compute correspondence",
+   text=("Machine-checked proofs that the Noll index is a bijection onto the valid (n,m) with the n-then-|m| order and the even/cos, odd/sin "
+         "parity, for ALL j >= 1 (Z.sqrt arithmetic, closed under the global context); that Noll-normalised modes are orthonormal over the disc "
+         "for all indices up to 861 (radial orders <= 40) by exact integration in Q; and that the makegammas tables reproduce the x- and "
+         "y-gradients of every mode as exact polynomial identities in Q[x,y] for nzrad <= 12 (91 modes), also stated as real derivatives. "
+         "zernIndex is compared exhaustively (2e4/2e5 indices plus float-sqrt stress up to 2^44) and the mode generators, normalisations, "
+         "phaseFromZernikes and makegammas entrywise with the model. A defect that made every mode generator raise was repaired (0b9c15b)."),
+   ref="5 C12",
+   note="Bounded parts state their bounds in the theorems; grid-refinement convergence of the Gram matrix only tested; Reals axioms only for the real-derivative corollary."),
 }
 NOT_YET = {}
 ALL = ["C%02d" % i for i in range(1, 21)]
